@@ -304,3 +304,5 @@ _patch('C18', 'level_text', 'Fiber::print_error looks each line up', 'e.backTrac
 _patch('C18', 'level_note', 'Not decided: the text of the traceback (frame_line strings)', 'Not decided: the text of each line (frame_line / writeln! formatting: which frame, ip and code offset it is computed from IS decided)')
 _patch('C02', 'level_text', 'Front-end pieces (stub-and-log extraction):', 'Name resolution (resolvevar unit, the real Resolver::resolve_variable / define_variable / begin_scope / end_scope and the real Symbol state machine, nested mutable borrows into the table stack as written): a name refers to the last symbol of that name in the innermost scope that declares it (shadowing), an initialised local read from a function nested in the one that declared it is marked captured and nothing else changes, a read in its own initialiser and an undeclared name are diagnostics. Compiler::add_capture returns the position of exactly the capture asked for or records a diagnostic (limitsc). Front-end pieces (stub-and-log extraction):')
 _patch('C02', 'level_text', 'Compiler::add_capture returns the position', 'The compile half of an access (varcomp unit, real Compiler::variable_get / variable_set / resolve_local): the innermost local of the name, in its exact slot; a plain local by slot, a captured one through its box with the same slot for read and write, a variable of an enclosing function through the capture table, a module symbol by its module slot — under the resolver guarantees stated as a named precondition. Compiler::add_capture returns the position')
+_patch('C18', 'level_text', 'Only this chain is decided.', 'Exit status (exitpath unit): the main fiber returning from its last frame is the Exit signal with the exit code untouched (Vm::pop_frame), and the status match of Vm::run maps Exit(n) to status n (Ok only for 0) and a runtime or compile error to a failing status. Only these chains are decided.')
+_patch('C18', 'level_note', 'exit-status mapping in Vm::run, exit(n).', 'the Exit native narrowing its argument to u16 (exit(70000), exit(-1)), process::exit in main.rs.')
